@@ -644,7 +644,7 @@ impl World {
             }
 
             index += 1;
-            if index == limits.max_iterations {
+            if index >= limits.max_iterations {
                 break Err(Execution::RunLimit(
                     crate::error::RunLimit::TooManyIterations,
                 ));
@@ -660,7 +660,7 @@ impl World {
             }
         };
 
-        self.iterations += index;
+        self.iterations = self.iterations.saturating_add(index);
 
         res
     }
